@@ -36,6 +36,13 @@ def UMemOk (σ : State) (a m : Nat) : Prop :=
   (σ.blk m).live = true ∧ (σ.blk m).isData = false ∧ (σ.blk m).ownerD = 0 ∧
   (σ.blk m).clrG = (σ.obj a).clr ∧ (σ.blk m).privG = (σ.obj a).priv
 
+/-- the view `o` fits the descriptor `k`: offset + length within the element count,
+the byte count `nm * sz` representable, an inline buffer fills its block exactly,
+an external buffer has room for it -/
+def ArrOk (o : Obj) (k : Blk) (ext : Nat → Nat) : Prop :=
+  o.off + o.len ≤ k.anm ∧ k.anm * k.asz < W ∧ k.anm < W ∧ k.asz < W ∧
+  (k.abuf = 0 → HDR + k.anm * k.asz = k.size ∧ k.size < W) ∧ (k.abuf ≠ 0 → k.anm * k.asz ≤ ext k.abuf)
+
 /-- the log consists of allocation events and release groups: the release of
 managed memory with a registered clear callback is immediately preceded by that
 callback (with the registered argument), no callback runs otherwise -/
@@ -258,9 +265,9 @@ theorem nW_def (σ : State) (d : Nat) : nW σ d = cnt (WRef σ.obj σ.kind d) σ
 macro "st_simp" : tactic => `(tactic| simp only [setBlk_blk, gSet_blk, setBlk_obj, gSet_obj, setBlk_kind, gSet_kind,
   setBlk_n, gSet_n, setBlk_next, gSet_next, setBlk_log, gSet_log, emit_obj, emit_blk, emit_n, emit_kind, emit_next,
   emit_log, setObj_obj, setObj_blk, setObj_n, setObj_kind, setObj_next, setObj_log,
-  upd_obj, upd_blk, upd_log, upd_next, upd_n, upd_kind, nH_upd_gSet, nW_upd_gSet, nH_upd_same, nW_upd_same,
+  upd_obj, upd_blk, upd_log, upd_next, upd_n, upd_kind, upd_ext, setObj_ext, setBlk_ext, emit_ext, gSet_ext, nH_upd_gSet, nW_upd_gSet, nH_upd_same, nW_upd_same,
   nH_upd_setObj, nW_upd_setObj,
-  nH_setBlk, nW_setBlk, nH_emit, nW_emit, HRef, WRef, MemOk, UMemOk, stamped] at *)
+  nH_setBlk, nW_setBlk, nH_emit, nW_emit, HRef, WRef, MemOk, UMemOk, ArrOk, stamped] at *)
 
 /-- two states are equal: field by field -/
 macro "st_ext" : tactic => `(tactic| (
@@ -294,7 +301,7 @@ structure Same (σ σ' : State) : Prop where
   kind : σ'.kind = σ.kind
   ext : σ'.extSize = σ.extSize
 
-theorem Same.of_ext {σ σ' : State} (E : Ext σ σ') : Same σ σ' := ⟨E.n, E.kind, E.ext⟩
+theorem Same.of_ext {A : Nat → Prop} {D : Bool} {σ σ' : State} (E : Ext A D σ σ') : Same σ σ' := ⟨E.n, E.kind, E.ext⟩
 
 theorem nH_zero {σ : State} {d : Nat} (h : nH σ d = 0) : ∀ x, x < σ.n → ¬ HRef σ.obj σ.kind d x :=
   cnt_zero.mp h
